@@ -71,15 +71,19 @@ type c23U struct {
 func (u *c23U) has(op string) bool { return strings.Contains(" "+u.Ops+" ", " "+op+" ") }
 
 type c23Ev struct {
-	Op   string
-	Pod  string
-	Node string
+	Op    string
+	Pod   string
+	Node  string
+	Block string
 }
 
 func (e c23Ev) String() string {
 	s := e.Op
 	if e.Pod != "" {
 		s += ":" + e.Pod
+	}
+	if e.Block != "" {
+		s += "#" + e.Block
 	}
 	if e.Node != "" {
 		s += "@" + e.Node
@@ -153,6 +157,15 @@ type c23State struct {
 	now       time.Duration            // logical time
 	candSince map[string]time.Duration // allocation id -> logical time at which the controller was first seen holding it as a leak candidate
 
+	// ghosts for the empty-block clause: what was DELIVERED to the controller, and the logical time of the
+	// first sync that ran while the delivered view of the block was "affine and empty" (reset whenever a
+	// non-empty version or a deletion of the block is delivered, or the GC itself releases it)
+	deliveredEmpty map[string]bool
+	deliveredAffOf map[string]string // block cidr -> host it was affine to in the version delivered to the controller
+	lastStaleLastBlock bool
+	obsEmptySince  map[string]time.Duration
+	seenBlocks     map[string]bool // every block CIDR that ever existed (candidates for re-claiming)
+
 	bad []hbfs.Fail
 	// re-execution of order-sensitive sync steps (Go map iteration order inside the controller)
 	hist           []c23Ev
@@ -169,7 +182,8 @@ type c23State struct {
 
 func c23New(u *c23U) *c23State {
 	s := &c23State{u: u, store: casstore.New(), ctx: context.Background(), pods: map[string]*c23Pod{}, nodes: map[string]bool{},
-		deliveredRev: map[string]string{}, deliveredNodes: map[string]bool{}, candSince: map[string]time.Duration{}}
+		deliveredRev: map[string]string{}, deliveredNodes: map[string]bool{}, candSince: map[string]time.Duration{},
+		deliveredEmpty: map[string]bool{}, deliveredAffOf: map[string]string{}, obsEmptySince: map[string]time.Duration{}, seenBlocks: map[string]bool{}}
 	mode := apiv3.Automatic
 	s.ic = ipam.NewIPAMClient(s.store, &c23Pools{pool: apiv3.IPPool{
 		ObjectMeta: metav1.ObjectMeta{Name: "pool1"},
@@ -406,6 +420,23 @@ func (s *c23State) deliver() {
 		}
 		s.c.handleUpdate(model.KVPair{Key: it.Key, Value: it.Value, Revision: it.Revision})
 		s.deliveredRev[c] = it.Revision
+		b := it.Value.(*model.AllocationBlock)
+		n := 0
+		for _, ai := range b.Allocations {
+			if ai != nil {
+				n++
+			}
+		}
+		delete(s.deliveredAffOf, c)
+		if b.Affinity != nil && strings.HasPrefix(*b.Affinity, "host:") {
+			s.deliveredAffOf[c] = strings.TrimPrefix(*b.Affinity, "host:")
+		}
+		if n == 0 && b.Affinity != nil && strings.HasPrefix(*b.Affinity, "host:") {
+			s.deliveredEmpty[c] = true
+		} else {
+			delete(s.deliveredEmpty, c)
+			delete(s.obsEmptySince, c)
+		}
 	}
 	var goneB []string
 	for c := range s.deliveredRev {
@@ -418,6 +449,9 @@ func (s *c23State) deliver() {
 		_, ipn, _ := cnet.ParseCIDR(c)
 		s.c.handleUpdate(model.KVPair{Key: model.BlockKey{CIDR: model.PrefixFromIPNet(*ipn)}})
 		delete(s.deliveredRev, c)
+		delete(s.deliveredAffOf, c)
+		delete(s.deliveredEmpty, c)
+		delete(s.obsEmptySince, c)
 	}
 }
 
@@ -519,6 +553,10 @@ func (s *c23State) gcSyncOnce(full bool) {
 	bb := s.storeBlocks()
 	before := s.allocsOf(bb)
 	affBefore := c23Affinity(bb)
+	prevObs := map[string]time.Duration{}
+	for k, v := range s.obsEmptySince {
+		prevObs[k] = v
+	}
 	if full {
 		s.c.fullScanNextSync("periodic sync")
 	}
@@ -606,7 +644,62 @@ func (s *c23State) gcSyncOnce(full bool) {
 	for _, h := range hosts {
 		s.lastBlocksReleased += len(affBefore[h]) - len(affAfter[h])
 		if s.nodes[h] && len(affBefore[h]) > 0 && len(affAfter[h]) == 0 {
-			s.fail("last-block-of-node-released", "GC released the last affine block of existing node %s (had %v)", h, affBefore[h])
+			// unless the controller had been told about a block of this node that an outside party has deleted in
+			// the meantime and whose deletion has not reached it yet (counted, not flagged)
+			inStore := map[string]bool{}
+			for _, c := range affBefore[h] {
+				inStore[c] = true
+			}
+			stale := false
+			for c, dh := range s.deliveredAffOf {
+				if dh == h && !inStore[c] {
+					stale = true
+				}
+			}
+			if stale {
+				s.lastStaleLastBlock = true
+			} else {
+				s.fail("last-block-of-node-released", "GC released the last affine block of existing node %s (had %v)", h, affBefore[h])
+			}
+		}
+	}
+	// clause 6: the affinity of an empty block of an existing node is released only after the block has been
+	// observed empty (by syncs) for at least the grace period since it (re)appeared
+	for _, h := range hosts {
+		if !s.nodes[h] {
+			continue // a deleted node's blocks are all released at once
+		}
+		still := map[string]bool{}
+		for _, c := range affAfter[h] {
+			still[c] = true
+		}
+		for _, c := range affBefore[h] {
+			if still[c] {
+				continue
+			}
+			since, ok := prevObs[c]
+			if !ok || s.now-since < c23Grace {
+				el := "never observed empty by an earlier sync since it (re)appeared"
+				if ok {
+					el = fmt.Sprintf("observed empty for %v", s.now-since)
+				}
+				s.fail("empty-block-released-before-grace-period", "GC released the affinity of block %s of existing node %s before it had been observed empty for the %v grace period (%s)", c, h, c23Grace, el)
+			}
+			delete(s.obsEmptySince, c)
+			delete(s.deliveredEmpty, c)
+		}
+	}
+	var de []string
+	for c := range s.deliveredEmpty {
+		de = append(de, c)
+	}
+	sort.Strings(de)
+	for _, c := range de {
+		if _, tracked := s.c.allBlocks[c]; !tracked {
+			continue
+		}
+		if _, ok := s.obsEmptySince[c]; !ok {
+			s.obsEmptySince[c] = s.now
 		}
 	}
 	// refresh the candidate ghost from the controller's own bookkeeping
@@ -699,6 +792,7 @@ func (s *c23State) isDual(p string) bool {
 
 func c23Apply(s *c23State, e c23Ev) {
 	s.lastFreed, s.lastBlocksReleased = 0, 0
+	s.lastStaleLastBlock = false
 	s.vAllocs, s.vBlocks = nil, nil
 	s.sampled = false
 	switch e.Op {
@@ -728,6 +822,10 @@ func c23Apply(s *c23State, e c23Ev) {
 	case "nodedel":
 		delete(s.nodes, e.Node)
 		s.store.Remove(model.ResourceKey{Kind: internalapi.KindNode, Name: e.Node})
+	case "blockdelext": // somebody other than the GC releases the affinity of an empty block (the block is deleted)
+		_ = s.ic.ReleaseAffinity(s.ctx, cnet.MustParseCIDR(e.Block), e.Node, true)
+	case "blockclaim": // the same CIDR is claimed again (empty) for the node
+		_, _, _ = s.ic.ClaimAffinity(s.ctx, cnet.MustParseCIDR(e.Block), ipam.AffinityConfig{AffinityType: ipam.AffinityTypeHost, Host: e.Node})
 	case "tunneladd":
 		s.allocate("vxlan-tunnel-addr-"+e.Node, e.Node, 1, map[string]string{ipam.AttributeNode: e.Node, ipam.AttributeType: ipam.AttributeTypeVXLAN}, apiv3.IPPoolAllowedUseTunnel)
 	case "syncpods":
@@ -752,6 +850,10 @@ func c23Apply(s *c23State, e c23Ev) {
 		panic("bad op " + e.Op)
 	}
 	s.checkBookkeeping()
+	vb, _ := s.view()
+	for c := range vb {
+		s.seenBlocks[c] = true
+	}
 	if !s.inInit {
 		s.hist = append(s.hist, e)
 	}
@@ -823,6 +925,36 @@ func c23Enabled(s *c23State, depth int) []c23Ev {
 			add("nodedel", "", n)
 			if !s.tunnelExists(n) {
 				add("tunneladd", "", n)
+			}
+		}
+	}
+	if u.has("blockdelext") || u.has("blockclaim") {
+		vb, _ := s.view()
+		var seen []string
+		for c := range s.seenBlocks {
+			seen = append(seen, c)
+		}
+		sort.Strings(seen)
+		for _, c := range seen {
+			it, exists := vb[c]
+			if !exists {
+				for _, n := range u.Nodes {
+					if s.nodes[n] && u.has("blockclaim") {
+						evs = append(evs, c23Ev{Op: "blockclaim", Block: c, Node: n})
+						break
+					}
+				}
+				continue
+			}
+			b := it.Value.(*model.AllocationBlock)
+			empty := true
+			for _, ai := range b.Allocations {
+				if ai != nil {
+					empty = false
+				}
+			}
+			if empty && b.Affinity != nil && strings.HasPrefix(*b.Affinity, "host:") && u.has("blockdelext") {
+				evs = append(evs, c23Ev{Op: "blockdelext", Block: c, Node: strings.TrimPrefix(*b.Affinity, "host:")})
 			}
 		}
 	}
@@ -1028,10 +1160,24 @@ func c23Key(s *c23State) string {
 	for b, t := range c.blockReleaseTracker.blocks {
 		tr = append(tr, fmt.Sprintf("%s=%d", b, c23Bucket(time.Since(t))))
 	}
-	for _, l := range []*[]string{&dn, &cl, &eb, &nb, &kn, &tr} {
+	var oe, sn []string
+	for b, h := range s.deliveredAffOf {
+		sn = append(sn, "d:"+b+"="+h)
+	}
+	for b := range s.deliveredEmpty {
+		x := b + "=?"
+		if t, ok := s.obsEmptySince[b]; ok {
+			x = fmt.Sprintf("%s=%d", b, c23Bucket(s.now-t))
+		}
+		oe = append(oe, x)
+	}
+	for b := range s.seenBlocks {
+		sn = append(sn, b)
+	}
+	for _, l := range []*[]string{&dn, &cl, &eb, &nb, &kn, &tr, &oe, &sn} {
 		sort.Strings(*l)
 	}
-	fmt.Fprintf(&sb, "|dirty:%v|full:%v|leaks:%v|empty:%v|nbb:%v|kn:%v|trk:%v|bad=%d|od=%v", dn, c.fullSyncRequired, cl, eb, nb, kn, tr, len(s.bad), s.orderDependent)
+	fmt.Fprintf(&sb, "|dirty:%v|full:%v|leaks:%v|empty:%v|nbb:%v|kn:%v|trk:%v|bad=%d|od=%v|oe:%v|seen:%v", dn, c.fullSyncRequired, cl, eb, nb, kn, tr, len(s.bad), s.orderDependent, oe, sn)
 	return sb.String()
 }
 
@@ -1055,6 +1201,9 @@ func c23Spec(c *vk.Ctx, u *c23U, depth int, tree bool, workers int) *hbfs.Spec[*
 				if s.orderDependent {
 					c.Add("sync_steps_with_order_dependent_outcome", 1)
 				}
+			}
+			if s.lastStaleLastBlock {
+				c.Add("info_last_block_released_while_external_block_deletion_undelivered", 1)
 			}
 			if s.lastFreed > 0 {
 				c.Add("gc_steps_that_freed_addresses", 1)
@@ -1140,6 +1289,13 @@ var c23Universes = map[string]*c23U{
 		Ops:  "podadd poddelclean poddel deliver syncall adv+ sync fullsync"},
 }
 
+func init() {
+	// an empty redundant block that somebody else deletes and that is later claimed again under the same CIDR
+	c23Universes["reclaim"] = &c23U{Name: "reclaim", Pods: []string{"p1", "p2", "p3"}, Nodes: []string{"n1"}, PoolCIDR: "10.0.0.0/29", BlockSize: 31,
+		Init: []c23Ev{{Op: "podadd", Pod: "p1", Node: "n1"}, {Op: "podadd", Pod: "p2", Node: "n1"}, {Op: "podadd", Pod: "p3", Node: "n1"}, {Op: "poddelclean", Pod: "p3"}, {Op: "syncall"}},
+		Ops:  "blockdelext blockclaim podadd poddelclean deliver adv+ adv- sync"}
+}
+
 func TestVerif_C23(t *testing.T) {
 	logrus.SetLevel(logrus.PanicLevel)
 	logrus.StandardLogger().ExitFunc = func(int) { panic("logrus.Fatal") }
@@ -1147,7 +1303,7 @@ func TestVerif_C23(t *testing.T) {
 	debug.SetGCPercent(600)
 	vk.Run(t, "C23", func(c *vk.Ctx) {
 		c.Rule("states = (truth pods/nodes, IPAM datastore blocks, pod/node lister caches, the controller's complete bookkeeping incl. candidate ages in tenths of the grace period, freshness of every cached block revision and sequence number); " +
-			"transitions = pod create / lost-DEL delete / clean delete / reschedule / new sandbox / eviction / status-IP changes, node delete, tunnel address, pod-cache sync, node-cache sync, block+node delivery, time advance by 0.6 or 1.1 grace periods, syncIPAM (dirty-only or full), each replayed on a fresh controller over a fresh datastore; " +
+			"transitions = pod create / lost-DEL delete / clean delete / reschedule / new sandbox / eviction / status-IP changes, node delete, tunnel address, pod-cache sync, node-cache sync, block+node delivery, an outside party deleting an empty block / the same CIDR being claimed again, time advance by 0.6 or 1.1 grace periods, syncIPAM (dirty-only or full), each replayed on a fresh controller over a fresh datastore; " +
 			"non-trivial = some allocation is not justified by its owner, or the step freed something")
 		c.Assume("the IPAM client is the real one over casstore (trusted CAS datastore model); Kubernetes truth is served by the fake clientset for direct reads; caches are snapshots of the truth at the last sync event; calico node name == Kubernetes node name (KDD)")
 		c.Assume("time: the controller's own stamps are shifted back by the advance (grace 10 min; real execution time per history is milliseconds); IP cooldown is 0 so the cold-IP GC path is inactive")
@@ -1189,7 +1345,7 @@ func TestVerif_C23(t *testing.T) {
 		plan := []struct {
 			u    string
 			q, t int
-		}{{"leak", 6, 8}, {"leak0", 6, 8}, {"handle", 7, 9}, {"node", 6, 9}, {"node0", 6, 8}, {"blocks", 6, 8}}
+		}{{"leak", 6, 8}, {"leak0", 6, 8}, {"handle", 7, 9}, {"node", 6, 9}, {"node0", 6, 8}, {"blocks", 6, 8}, {"reclaim", 7, 9}}
 		for _, p := range plan {
 			hbfs.Explore(c, c23Spec(c, c23Universes[p.u], c.Pick(p.q, p.t), false, w))
 		}
